@@ -67,7 +67,7 @@ def explore(run, tier):
     cases = []
     nseed = 80 if not thorough else 600
     for i in range(nseed):
-        cfg = 'pkg' if i % 3 else iu.gen_config(rng)
+        cfg = 'pkg' if i % 3 else iu.gen_config(rng, with_decimal=(i % 2 == 0))
         cdict = pkg if cfg == 'pkg' else cfg
         codec = ['latin_1', 'cp500', 'cp037', 'ascii'][i % 4]
         hexbm = i % 2
